@@ -1,8 +1,9 @@
 import OtelVerif.Model.C07Map
+import OtelVerif.Lemmas.C07
 /-! helper lemmas for the `pcommon.Map` heap model (C07 part B): separation invariant on the bytes
 wrappers reachable from live slots, and the per-operation specifications -/
 namespace OtelVerif.C07.M
-open OtelVerif.C07 (upd keep)
+open OtelVerif.C07 (upd keep keep_sublist map_keep)
 
 theorem upd_same {β : Type} (f : Nat → β) (i : Nat) (v : β) : upd f i v i = v := by simp [upd]
 theorem upd_other {β : Type} (f : Nat → β) (i j : Nat) (v : β) (h : j ≠ i) : upd f i v j = f j := by simp [upd, h]
@@ -334,5 +335,288 @@ theorem copyElems_spec (ss : List KV) : ∀ (w : Nat → List Nat) (next : Nat) 
             rcases (i4 did hm).1 with h | h
             · exact hdidnd h
             · omega
+
+/-! ### per-operation specifications -/
+
+theorem bids_singleton (kv : KV) (o : Nat) : o ∈ bids [kv] ↔ bid kv = some o := by
+  simp [bids, List.filterMap_cons]
+  cases bid kv <;> simp [eq_comm]
+
+theorem putVal_bids_mem (h : Hdr) (k : Nat) (x : V) (c o : Nat) (ho : o ∈ bids (putVal h k x c).live) :
+    o ∈ bids h.live ∨ bid ⟨k, x⟩ = some o := by
+  unfold putVal at ho
+  cases hf : find h.live k with
+  | some i => simp only [hf] at ho; exact bids_set_mem _ _ _ _ ho
+  | none =>
+    simp only [hf, bids_append, List.mem_append] at ho
+    exact ho.imp id (fun h' => (bids_singleton _ _).mp h')
+
+theorem putVal_bids_nodup (h : Hdr) (k : Nat) (x : V) (c : Nat) (hn : (bids h.live).Nodup)
+    (hf : ∀ o, bid ⟨k, x⟩ = some o → o ∉ bids h.live) : (bids (putVal h k x c).live).Nodup := by
+  unfold putVal
+  cases hfi : find h.live k with
+  | some i => simp only []; exact bids_set_nodup _ _ _ hn hf
+  | none =>
+    simp only [bids_append]
+    refine List.nodup_append.mpr ⟨hn, ?_, ?_⟩
+    · cases hb : bid (⟨k, x⟩ : KV) <;> simp [bids, List.filterMap_cons, hb]
+    · intro a ha b hb e; subst e
+      exact hf a ((bids_singleton _ _).mp hb) ha
+
+theorem putVal_abs (h : Hdr) (k : Nat) (x : V) (c : Nat) (w w' : Nat → List Nat)
+    (hw : ∀ i ∈ bids h.live, w' i = w i) :
+    (putVal h k x c).live.map (absKV w') = pput (h.live.map (absKV w)) k (absV w' x) := by
+  have hm := map_absKV_congr w w' h.live hw
+  unfold putVal pput
+  rw [find_map]
+  cases hf : find h.live k with
+  | some i => simp only [List.map_set, hm]; rfl
+  | none => simp only [List.map_append, hm]; rfl
+
+theorem removeKey_live (h : Hdr) (k : Nat) :
+    (∃ i last, find h.live k = some i ∧ h.live.getLast? = some last ∧ (removeKey h k).live = (h.live.set i last).dropLast) ∨
+    (removeKey h k).live = h.live := by
+  unfold removeKey
+  cases hf : find h.live k with
+  | none => right; rfl
+  | some i =>
+    cases hl : h.live.getLast? with
+    | none => right; rfl
+    | some last => left; exact ⟨i, last, rfl, rfl, rfl⟩
+
+theorem setLast_bids (l : List KV) (i : Nat) (last : KV) (hl : l.getLast? = some last) (hn : (bids l).Nodup) :
+    (bids ((l.set i last).dropLast)).Nodup ∧ ∀ o ∈ bids ((l.set i last).dropLast), o ∈ bids l := by
+  obtain ⟨ys, rfl⟩ := List.getLast?_eq_some_iff.mp hl
+  rw [bids_append] at hn
+  obtain ⟨hny, _, hdis⟩ := List.nodup_append.mp hn
+  by_cases hi : i < ys.length
+  · have : ((ys ++ [last]).set i last).dropLast = ys.set i last := by
+      rw [List.set_append]; simp [hi]
+    rw [this]
+    constructor
+    · exact bids_set_nodup _ _ _ hny (fun o ho hm => hdis o hm o ((bids_singleton _ _).mpr ho) rfl)
+    · intro o ho
+      rw [bids_append, List.mem_append]
+      exact (bids_set_mem _ _ _ _ ho).imp id (fun h' => (bids_singleton _ _).mpr h')
+  · have : ((ys ++ [last]).set i last).dropLast = ys := by
+      rw [List.set_append]; simp only [hi, if_false]
+      cases (i - ys.length) <;> simp
+    rw [this]
+    exact ⟨hny, fun o ho => by rw [bids_append, List.mem_append]; exact Or.inl ho⟩
+
+theorem removeKey_abs (h : Hdr) (k : Nat) (w : Nat → List Nat) :
+    (removeKey h k).live.map (absKV w) = premove (h.live.map (absKV w)) k := by
+  unfold removeKey premove
+  rw [find_map, List.getLast?_map]
+  cases hf : find h.live k with
+  | none => rfl
+  | some i =>
+    cases hl : h.live.getLast? with
+    | none => rfl
+    | some last => simp [List.map_set, List.map_dropLast]
+
+/-- outcome of every operation: invariant kept, readers show the pure result, same panic -/
+theorem step_spec {s : St} (hi : Inv s) (op : Op) (hw : WfOp op) :
+    Inv (step s op).1 ∧ abs (step s op).1 = (pstep (abs s) op).1 ∧ (step s op).2 = (pstep (abs s) op).2 := by
+  have habs_ro : (abs s).ro = s.ro := rfl
+  have same : Inv s ∧ abs s = abs s ∧ True := ⟨hi, rfl, trivial⟩
+  cases op with
+  | putScalar a k kind v c =>
+    simp only [step, pstep, habs_ro]
+    by_cases hr : s.ro a = true
+    · simp [hr, hi]
+    · simp only [hr, Bool.false_eq_true, ↓reduceIte]
+      refine ⟨?_, PSt.ext' _ _ ?_ rfl, by first | rfl | trivial⟩
+      · exact inv_update_sub hi a _ _ (putVal_bids_nodup _ _ _ _ (hi.nodup a) (by simp [bid]))
+          (fun o ho => (putVal_bids_mem _ _ _ _ _ ho).resolve_right (by simp [bid]))
+      · exact abs_update_val s a _ s.w s.next _ (putVal_abs _ _ _ _ s.w s.w (fun _ _ => rfl)) (fun _ _ _ _ => rfl)
+  | putEmpty a k c =>
+    simp only [step, pstep, habs_ro]
+    by_cases hr : s.ro a = true
+    · simp [hr, hi]
+    · simp only [hr, Bool.false_eq_true, ↓reduceIte]
+      refine ⟨?_, PSt.ext' _ _ ?_ rfl, by first | rfl | trivial⟩
+      · exact inv_update_sub hi a _ _ (putVal_bids_nodup _ _ _ _ (hi.nodup a) (by simp [bid]))
+          (fun o ho => (putVal_bids_mem _ _ _ _ _ ho).resolve_right (by simp [bid]))
+      · exact abs_update_val s a _ s.w s.next _ (putVal_abs _ _ _ _ s.w s.w (fun _ _ => rfl)) (fun _ _ _ _ => rfl)
+  | putBytes a k bs c =>
+    simp only [step, pstep, habs_ro]
+    by_cases hr : s.ro a = true
+    · simp [hr, hi]
+    · simp only [hr, Bool.false_eq_true, ↓reduceIte]
+      have hfresh : ∀ d, s.next ∉ bids (s.hd d).live := fun d hm => Nat.lt_irrefl _ (hi.lt d _ hm)
+      have hframe : ∀ d, ∀ o ∈ bids (s.hd d).live, upd s.w s.next bs o = s.w o :=
+        fun d o ho => upd_other _ _ _ _ (fun e => hfresh d (e ▸ ho))
+      refine ⟨?_, PSt.ext' _ _ ?_ rfl, by first | rfl | trivial⟩
+      · apply inv_update hi a _ _ _ _ _ (Nat.le_succ _)
+        · exact putVal_bids_nodup _ _ _ _ (hi.nodup a) (fun o ho => by simp [bid] at ho; subst ho; exact hfresh a)
+        · intro o ho
+          rcases putVal_bids_mem _ _ _ _ _ ho with h | h
+          · exact ⟨Or.inl h, Nat.lt_succ_of_lt (hi.lt a o h)⟩
+          · simp [bid] at h; subst h; exact ⟨Or.inr (Nat.le_refl _), Nat.lt_succ_self _⟩
+      · apply abs_update_val s a _ _ _ _ _ (fun d _ => hframe d)
+        rw [putVal_abs _ _ _ _ s.w _ (hframe a)]
+        simp [absV, upd_same, abs]
+  | bytesAppend a k x =>
+    simp only [step, pstep, habs_ro]
+    by_cases hr : s.ro a = true
+    · simp [hr, hi]
+    · simp only [hr, Bool.false_eq_true, ↓reduceIte]
+      have hfm : pfind ((abs s).val a) k = find (s.hd a).live k := find_map _ _ _
+      rw [hfm]
+      cases hf : find (s.hd a).live k with
+      | none => exact ⟨hi, rfl, by first | rfl | trivial⟩
+      | some i =>
+        simp only []
+        have hget : ((abs s).val a)[i]? = ((s.hd a).live[i]?).map (absKV s.w) := by simp [abs]
+        rw [hget]
+        cases hg : (s.hd a).live[i]? with
+        | none => exact ⟨hi, rfl, by first | rfl | trivial⟩
+        | some kv =>
+          obtain ⟨k', v⟩ := kv
+          cases v with
+          | nil => exact ⟨hi, rfl, by first | rfl | trivial⟩
+          | scalar p q => exact ⟨hi, rfl, by first | rfl | trivial⟩
+          | bytes id =>
+            have hmem : id ∈ bids (s.hd a).live := mem_bids_of_getElem? hg
+            simp only [Option.map_some, absKV, absV]
+            refine ⟨⟨hi.lt, hi.nodup, hi.disj⟩, PSt.ext' _ _ ?_ rfl, by first | rfl | trivial⟩
+            funext d
+            by_cases hd : d = a
+            · subst hd
+              simp only [abs, upd_same]
+              exact map_absKV_upd _ _ _ _ _ _ (hi.nodup d) hg
+            · simp only [abs, upd_other _ _ _ _ hd]
+              exact map_absKV_congr _ _ _ (fun o ho => upd_other _ _ _ _ (fun e => hi.disj a d (fun e' => hd e'.symm) id hmem (e ▸ ho)))
+  | remove a k =>
+    simp only [step, pstep, habs_ro]
+    by_cases hr : s.ro a = true
+    · simp [hr, hi]
+    · simp only [hr, Bool.false_eq_true, ↓reduceIte]
+      refine ⟨?_, PSt.ext' _ _ ?_ rfl, by first | rfl | trivial⟩
+      · have hnd : (bids (removeKey (s.hd a) k).live).Nodup ∧
+            ∀ o ∈ bids (removeKey (s.hd a) k).live, o ∈ bids (s.hd a).live := by
+          rcases removeKey_live (s.hd a) k with ⟨i, last, _, hl, hlive⟩ | hlive
+          · rw [hlive]; exact setLast_bids _ i last hl (hi.nodup a)
+          · rw [hlive]; exact ⟨hi.nodup a, fun o ho => ho⟩
+        exact inv_update_sub hi a _ _ hnd.1 hnd.2
+      · exact abs_update_val s a _ s.w s.next _ (removeKey_abs _ _ _) (fun _ _ _ _ => rfl)
+  | removeIf a m =>
+    simp only [step, pstep, habs_ro]
+    by_cases hr : s.ro a = true
+    · simp [hr, hi]
+    · simp only [hr, Bool.false_eq_true, ↓reduceIte]
+      have hsub := bids_sublist (keep_sublist (s.hd a).live m)
+      refine ⟨?_, PSt.ext' _ _ ?_ rfl, by first | rfl | trivial⟩
+      · exact inv_update_sub hi a _ _ ((hi.nodup a).sublist hsub) (fun o ho => hsub.subset ho)
+      · exact abs_update_val s a _ s.w s.next _ (by simp [removeIfH, map_keep, abs]) (fun _ _ _ _ => rfl)
+  | ensureCap a n =>
+    simp only [step, pstep, habs_ro]
+    by_cases hr : s.ro a = true
+    · simp [hr, hi]
+    · simp only [hr, Bool.false_eq_true, ↓reduceIte]
+      by_cases hn : n ≤ (s.hd a).cap
+      · simp only [hn, ↓reduceIte]; exact ⟨hi, by first | rfl | trivial, by first | rfl | trivial⟩
+      · simp only [hn, ↓reduceIte]
+        refine ⟨inv_update_sub hi a _ _ (hi.nodup a) (fun o ho => ho), PSt.ext' _ _ ?_ rfl, by first | rfl | trivial⟩
+        funext d
+        by_cases hd : d = a
+        · subst hd; simp [abs, upd_same]
+        · simp [abs, upd_other _ _ _ _ hd]
+  | clear a =>
+    simp only [step, pstep, habs_ro]
+    by_cases hr : s.ro a = true
+    · simp [hr, hi]
+    · simp only [hr, Bool.false_eq_true, ↓reduceIte]
+      refine ⟨inv_update_sub hi a [] [] (by simp) (by simp), PSt.ext' _ _ ?_ rfl, by first | rfl | trivial⟩
+      exact abs_update_val s a _ s.w s.next _ rfl (fun _ _ _ _ => rfl)
+  | copyTo a b =>
+    simp only [step, pstep, habs_ro]
+    by_cases hr : s.ro b = true
+    · simp [hr, hi]
+    · simp only [hr, Bool.false_eq_true, ↓reduceIte]
+      have hab : a ≠ b := hw
+      -- both branches: destination slots = some of b's own live slots followed by zero slots
+      have core : ∀ (ds t : List KV), (s.hd a).live.length = ds.length → (∀ o ∈ bids ds, o ∈ bids (s.hd b).live) → (bids ds).Nodup →
+          let r := copyElems s.w s.next (s.hd a).live ds
+          Inv { s with w := r.1, next := r.2.1, hd := upd s.hd b ⟨r.2.2, t⟩ } ∧
+          (abs { s with w := r.1, next := r.2.1, hd := upd s.hd b ⟨r.2.2, t⟩ }).val = upd (abs s).val b ((abs s).val a) := by
+        intro ds t hlen hsub hnd r
+        obtain ⟨i1, i2, i3, i4, i5⟩ := copyElems_spec (s.hd a).live s.w s.next ds hlen (hi.lt a)
+          (fun o ho => hi.lt b o (hsub o ho)) hnd (fun o ho hm => hi.disj a b hab o ho (hsub o hm))
+        constructor
+        · exact inv_update hi b _ _ _ _ _ i1 i5 (fun o ho => ⟨(i4 o ho).1.imp (hsub o) id, (i4 o ho).2⟩)
+        · apply abs_update_val s b _ _ _ _ i3
+          intro c hc o ho
+          exact i2 o (hi.lt c o ho) (fun hm => hi.disj c b hc o ho (hsub o hm))
+      unfold copyTo
+      by_cases hn : (s.hd a).live.length ≤ (s.hd b).cap
+      · simp only [hn, ↓reduceIte]
+        have hb : bids ((s.hd b).live.take (s.hd a).live.length ++ List.replicate ((s.hd a).live.length - (s.hd b).live.length) KV.zero)
+            = bids ((s.hd b).live.take (s.hd a).live.length) := by rw [bids_append, bids_replicate_zero, List.append_nil]
+        have hts := bids_sublist (List.take_sublist (s.hd a).live.length (s.hd b).live)
+        obtain ⟨h1, h2⟩ := core ((s.hd b).live.take (s.hd a).live.length ++ List.replicate ((s.hd a).live.length - (s.hd b).live.length) KV.zero) ((s.hd b).live.drop (s.hd a).live.length ++ (s.hd b).tail.drop ((s.hd a).live.length - (s.hd b).live.length))
+          (by simp [List.length_take]; omega) (by rw [hb]; exact fun o ho => hts.subset ho) (by rw [hb]; exact (hi.nodup b).sublist hts)
+        exact ⟨h1, PSt.ext' _ _ h2 rfl, by first | rfl | trivial⟩
+      · simp only [hn, ↓reduceIte]
+        obtain ⟨h1, h2⟩ := core (List.replicate (s.hd a).live.length KV.zero) [] (by simp)
+          (by rw [bids_replicate_zero]; simp) (by rw [bids_replicate_zero]; simp)
+        exact ⟨h1, PSt.ext' _ _ h2 rfl, by first | rfl | trivial⟩
+  | moveTo a b =>
+    simp only [step, pstep, habs_ro]
+    by_cases hr : (s.ro a || s.ro b) = true
+    · simp [hr, hi]
+    · simp only [hr, Bool.false_eq_true, ↓reduceIte]
+      have hab : a ≠ b := hw
+      have hba : b ≠ a := fun e => hab e.symm
+      have hlive : ∀ d, (upd (upd s.hd b (s.hd a)) a {} d).live =
+          if d = a then [] else if d = b then (s.hd a).live else (s.hd d).live := by
+        intro d
+        by_cases hda : d = a
+        · subst hda; simp [upd_same]
+        · by_cases hdb : d = b
+          · subst hdb; simp [upd_other _ _ _ _ hda, upd_same, hda]
+          · simp [upd_other _ _ _ _ hda, upd_other _ _ _ _ hdb, hda, hdb]
+      refine ⟨⟨?_, ?_, ?_⟩, PSt.ext' _ _ ?_ rfl, by first | rfl | trivial⟩
+      · intro d o ho
+        simp only [hlive] at ho
+        split at ho
+        · simp at ho
+        · split at ho
+          · exact hi.lt a o ho
+          · exact hi.lt d o ho
+      · intro d
+        simp only [hlive]
+        split
+        · simp
+        · split
+          · exact hi.nodup a
+          · exact hi.nodup d
+      · intro d e hde o ho hm
+        simp only [hlive] at ho hm
+        by_cases hda : d = a
+        · simp [hda] at ho
+        · by_cases hea : e = a
+          · simp [hea] at hm
+          · simp only [hda, hea, if_false] at ho hm
+            by_cases hdb : d = b
+            · have heb : e ≠ b := fun h => hde (hdb.trans h.symm)
+              simp only [hdb, heb, if_true, if_false] at ho hm
+              exact hi.disj a e (fun h => hea h.symm) o ho hm
+            · by_cases heb : e = b
+              · simp only [hdb, heb, if_true, if_false] at ho hm
+                exact hi.disj d a hda o ho hm
+              · simp only [hdb, heb, if_false] at ho hm
+                exact hi.disj d e hde o ho hm
+      · funext d
+        simp only [abs, hlive]
+        by_cases hda : d = a
+        · subst hda; simp [upd_same]
+        · by_cases hdb : d = b
+          · subst hdb; simp [hda, upd_other _ _ _ _ hda, upd_same]
+          · simp [hda, hdb, upd_other _ _ _ _ hda, upd_other _ _ _ _ hdb]
+  | markRO a =>
+    simp only [step, pstep]
+    refine ⟨⟨hi.lt, hi.nodup, hi.disj⟩, ?_, ?_⟩ <;> first | rfl | trivial
 
 end OtelVerif.C07.M
